@@ -56,6 +56,20 @@ def templates():
     desk = T.prog([T.route("triage", ["v"], ["fix", "END"], emit=["triaged"]), T.fn("fix", ["v"], ["a"]), T.fn("note", ["v"], ["n0"], wait_for=["triaged"])], name="desk")
     yield "emitting-gate-in-container", T.prog([T.fn("src", ["e0"], ["v"]), T.gnode("desk", desk), T.fn("aud", ["a", "e0"], ["z"], wait_for=["triaged"])])
     yield "emitting-ifelse", T.prog([T.fn("src", ["e0"], ["v"]), T.ifelse("chk", ["v"], "p", "q", emit=["checked"]), T.fn("p", ["v"], ["a"]), T.fn("q", ["v"], ["b"]), T.fn("aud", ["e0"], ["z"], wait_for=["checked"])])
+    # two containers with the SAME name in different scopes (train/prep and evaluate/prep), inner node names equal too:
+    # ids are hierarchical, nothing may be keyed by the bare name
+    def _prep(src, dst):
+        return T.prog([T.fn("clean", [src], ["mid_" + dst], name="clean"), T.fn("scale", ["mid_" + dst], [dst], name="scale")], name="prep")
+
+    tr = T.prog([T.gnode("prep_t", _prep("raw_t", "feat_t"), name="prep"), T.fn("fit", ["feat_t"], ["model"])], name="train")
+    evl = T.prog([T.gnode("prep_e", _prep("raw_e", "feat_e"), name="prep"), T.fn("score", ["feat_e", "model"], ["metric"])], name="evaluate")
+    for sp in T.all_specs(tr):
+        if sp["kind"] == "fn" and sp["id"] in ("clean", "scale"):
+            sp["id"] = sp["id"] + "_t"
+    for sp in T.all_specs(evl):
+        if sp["kind"] == "fn" and sp["id"] in ("clean", "scale"):
+            sp["id"] = sp["id"] + "_e"
+    yield "same-named-containers-in-two-scopes", T.prog([T.gnode("train", tr), T.gnode("evaluate", evl)])
     oin = T.prog([T.fn("o1", ["e0"], ["x"], emit=["sig"]), T.fn("o2", ["e0"], ["y"], wait_for=["sig"])], name="oin")
     yield "ordering-inside-container", T.prog([T.gnode("oin", oin), T.fn("fin", ["x", "y"], ["z"])])
 
